@@ -30,6 +30,7 @@ import (
 	"github.com/bronlabs/bron-crypto/pkg/signatures/schnorrlike/bip340"
 
 	"verif/harness/internal/drive"
+	daor "verif/harness/internal/drive/aor"
 	dbls "verif/harness/internal/drive/boldyreva"
 	dcan "verif/harness/internal/drive/canetti"
 	dcg "verif/harness/internal/drive/cggmp21"
@@ -38,6 +39,7 @@ import (
 	dhjky "verif/harness/internal/drive/hjky"
 	"verif/harness/internal/drive/keys"
 	dl17 "verif/harness/internal/drive/lindell17"
+	dl17dkg "verif/harness/internal/drive/lindell17dkg"
 	dl22 "verif/harness/internal/drive/lindell22"
 	dredist "verif/harness/internal/drive/redistribute"
 	dsess "verif/harness/internal/drive/session"
@@ -72,9 +74,10 @@ type adapter struct {
 	// recipient would get and re-encodes it (nil if they do not decode): altered bytes whose norm
 	// equals the original bytes are the SAME message for the recipient (a semantic no-op, e.g. a
 	// byte string longer than the fixed-size array it is decoded into).
-	norm       func(round int, bcast bool, b []byte) []byte
-	noParallel bool     // skip the parallel-session run (expensive protocols)
-	first      []string // fields whose value flips are scheduled first (small quotas)
+	norm         func(round int, bcast bool, b []byte) []byte
+	noParallel   bool     // skip the parallel-session run (expensive protocols)
+	first        []string // fields whose value flips are scheduled first (small quotas)
+	thoroughOnly bool     // too expensive for the quick tier
 }
 
 func normAs[M any](b []byte) []byte {
@@ -239,12 +242,15 @@ func adapters(tier string) []*adapter {
 		{name: "redistribute-recover", run: func(seed int64, label map[sharing.ID]string, hook drive.Hook) *outcome {
 			return runRedist(seed, label, hook, []sharing.ID{1, 2})
 		}},
-		// protocols without a round model: property oracle (a)-(c) only
-		{name: "canetti", run: runCanetti},
-		{name: "dkls23-softspoken", run: func(seed int64, label map[sharing.ID]string, hook drive.Hook) *outcome {
+		// canetti, aor and dkls23-softspoken have a round model too; cggmp21, lindell17 and lindell17dkg: oracle (a)-(c) only
+		{name: "canetti", modelled: true, run: runCanetti},
+		{name: "dkls23-softspoken", modelled: true, run: func(seed int64, label map[sharing.ID]string, hook drive.Hook) *outcome {
 			return runDkls(seed, label, hook, "softspoken", []sharing.ID{1, 2})
 		}, noParallel: true},
+		{name: "aor", modelled: true, run: runAor},
 		{name: "lindell17", run: runL17, noParallel: true},
+		// 3072-bit Paillier keys are generated inside the protocol: thorough tier only
+		{name: "lindell17dkg", run: runL17Dkg, noParallel: true, thoroughOnly: true},
 		{name: "cggmp21", run: runCggmp, noParallel: true},
 	}
 }
@@ -638,4 +644,98 @@ func runCggmp(seed int64, label map[sharing.ID]string, hook drive.Hook) *outcome
 func sha256Sum(b []byte) []byte {
 	h := sha256.Sum256(b)
 	return h[:]
+}
+
+// ---- agree-on-random -------------------------------------------------------------------
+
+func runAor(seed int64, label map[sharing.ID]string, hook drive.Hook) *outcome {
+	name := "verif-aor-" + sessionLabel(label)
+	res := daor.RunFull(daor.Config{Seed: seed, Prop: "C04", Quorum: parties, Size: 32, TapeName: name, Labels: label, Hook: hook})
+	o := &outcome{tr: res.Trace, ids: res.IDs}
+	o.judge = func(dev sharing.ID) (bad []finding, returned []sharing.ID) {
+		for _, id := range honestOf(res.IDs, dev) {
+			if res.Samples[id] != nil {
+				returned = append(returned, id)
+			}
+		}
+		for i, a := range returned {
+			for _, b := range returned[i+1:] {
+				if string(res.Samples[a]) != string(res.Samples[b]) {
+					bad = append(bad, finding{"different-samples-returned", fmt.Sprintf("honest parties %d and %d agreed on different randomness %s / %s", uint64(a), uint64(b), vh.Hex(res.Samples[a]), vh.Hex(res.Samples[b]))})
+				}
+				if string(res.Extract[a]) != string(res.Extract[b]) {
+					bad = append(bad, finding{"different-samples-returned", fmt.Sprintf("honest parties %d and %d end with different transcripts", uint64(a), uint64(b))})
+				}
+			}
+		}
+		return bad, returned
+	}
+	return o
+}
+
+// ---- lindell17 DKG (thorough tier only) ------------------------------------------------
+
+func runL17Dkg(seed int64, label map[sharing.ID]string, hook drive.Hook) *outcome {
+	pol, _ := keys.ParsePolicy(policy)
+	g := k256.NewCurve()
+	dealt, err := keys.Deal[kP, kS](g, pol, vh.NewRng(seed, "C04", "deal", 0))
+	if err != nil {
+		return &outcome{setupErr: err.Error()}
+	}
+	res := dl17dkg.RunFull(dl17dkg.Config[kP, kB, kS]{Seed: seed, Prop: "C04", Labels: label, Hook: hook, Curve: g,
+		Shards: dealt.Shards, Ctxs: ctxsFor(seed, label, parties)})
+	o := &outcome{tr: res.Trace, ids: res.IDs}
+	o.judge = func(dev sharing.ID) (bad []finding, returned []sharing.ID) {
+		for _, id := range honestOf(res.IDs, dev) {
+			if res.Shards[id] != nil {
+				returned = append(returned, id)
+			}
+		}
+		p := vh.Safely(func() {
+			for _, obs := range returned {
+				osh := res.Shards[obs]
+				if !osh.PublicKeyValue().Equal(dealt.PK) || !osh.BaseShard.Equal(dealt.Shards[obs]) {
+					bad = append(bad, finding{"bad-shard-returned", fmt.Sprintf("party %d returns a shard whose key material differs from its base shard", uint64(obs))})
+				}
+				// what obs stored about every peer whose own shard (secret key) is available
+				for _, snd := range res.IDs {
+					ssh := res.Shards[snd]
+					if snd == obs || ssh == nil || !dealt.AC.IsQualified(snd, obs) {
+						continue
+					}
+					cts, ok := osh.EncryptedShares().Get(snd)
+					pk, ok2 := osh.PaillierPublicKeys().Get(snd)
+					if !ok || !ok2 {
+						bad = append(bad, finding{"bad-shard-returned", fmt.Sprintf("party %d stored nothing about its qualified peer %d", uint64(obs), uint64(snd))})
+						continue
+					}
+					if !pk.Equal(ssh.PaillierSecretKey().Public()) {
+						bad = append(bad, finding{"bad-shard-returned", fmt.Sprintf("party %d stored a Paillier key for %d that is not %d's", uint64(obs), uint64(snd), uint64(snd))})
+						continue
+					}
+					pub, _ := dealt.Shards[obs].PublicKeyShares().Get(snd)
+					if len(cts) != len(pub.Value()) {
+						bad = append(bad, finding{"bad-shard-returned", fmt.Sprintf("party %d stored %d encrypted components for %d, expected %d", uint64(obs), len(cts), uint64(snd), len(pub.Value()))})
+						continue
+					}
+					for i, ct := range cts {
+						pt, err := ssh.PaillierSecretKey().Decrypt(ct)
+						if err != nil {
+							bad = append(bad, finding{"bad-shard-returned", fmt.Sprintf("party %d stored an undecryptable ciphertext for %d", uint64(obs), uint64(snd))})
+							continue
+						}
+						x, err := g.ScalarField().FromBytesBEReduce(pt.Value().Big().Bytes())
+						if err != nil || !g.ScalarBaseMul(x).Equal(pub.Value()[i]) {
+							bad = append(bad, finding{"bad-shard-returned", fmt.Sprintf("party %d stored an encrypted share of %d (component %d) that is not the discrete log of %d's public share", uint64(obs), uint64(snd), i, uint64(snd))})
+						}
+					}
+				}
+			}
+		})
+		if p != "" {
+			bad = append(bad, finding{"oracle-panic", p})
+		}
+		return bad, returned
+	}
+	return o
 }
